@@ -304,4 +304,465 @@ example : ∃ toks, line " ldi r16 , low ( K ) + 1 // c".toList = .ok (.codeLine
     (hb _ (Or.inr rfl)) (Or.inr ⟨Or.inr rfl, rfl⟩)
   exact ⟨_, this⟩
 
+/-! ### whole lines: a directive with a list of expressions -/
+
+/-- what the assignment alternative of `directive_ops` sees behind a leading identifier: nothing
+    that looks like `= expression` -/
+def NoAssign (u : Str) : Prop := u = [] ∨ (∃ y ys, u = y :: ys ∧ y ≠ '=') ∨ ∃ r, u = '=' :: '=' :: r
+
+/-- a written expression either does not begin with an identifier, or it is an identifier followed
+    by something that is no assignment -/
+def LeadOk (s : Str) : Prop :=
+  (∃ y ys, s = y :: ys ∧ isIdentStart y = false) ∨
+  ∃ name t, s = name ++ t ∧ isName name ∧ (∀ y, t.head? = some y → isIdentChar y = false) ∧ NoAssign (skipSpace t)
+
+theorem noAssign_op (w : Str) (hw : blanks w) (op : BinOp) (rest : Str) : NoAssign (skipSpace (w ++ (op.text ++ rest))) := by
+  rw [space_absorbs w _ hw, skip_op]
+  cases op <;> first
+    | exact Or.inr (Or.inr ⟨_, rfl⟩)
+    | exact Or.inr (Or.inl ⟨_, _, rfl, by decide⟩)
+
+theorem spaced_lead (m k : Nat) (e : Expr) (s : Str) (h : Spaced m k e s) :
+    ∀ rest, (∀ y, rest.head? = some y → isIdentChar y = false) → NoAssign (skipSpace rest) → LeadOk (s ++ rest) := by
+  induction h with
+  | ident m s hs => intro rest hr hn; exact Or.inr ⟨s, rest, rfl, hs, hr, hn⟩
+  | const m v n hv hfit =>
+    intro rest _ _
+    have hnt : NumText (intToDec v) n := by rw [hv]; exact numText_intToDec n hfit
+    obtain ⟨y, ys, hs, hy⟩ := numText_head _ n hnt rest
+    left
+    refine ⟨y, ys, hs, ?_⟩
+    rcases hy with h | rfl
+    · cases hi : isIdentStart y with
+      | false => rfl
+      | true => have := (identStart_facts y hi).1; rw [h] at this; exact absurd this (by decide)
+    · decide
+  | un m k u e w s _ _ _ =>
+    intro rest _ _
+    left
+    cases u with
+    | minus => exact ⟨'-', _, rfl, by decide⟩
+    | bnot => exact ⟨'~', _, rfl, by decide⟩
+    | lnot => exact ⟨'!', _, rfl, by decide⟩
+  | func m k name a w0 w1 w2 s hn hw0 _ _ _ _ =>
+    intro rest _ _
+    right
+    refine ⟨name, w0 ++ '(' :: (w1 ++ (s ++ (w2 ++ [')']))) ++ rest, by simp, hn, ?_, ?_⟩
+    · intro y hy
+      cases w0 with
+      | nil => simp at hy; subst hy; decide
+      | cons c cs =>
+        simp at hy; subst hy
+        have hc : isSpace c = true := hw0 c (by simp)
+        simp only [isSpace, Bool.or_eq_true, beq_iff_eq] at hc
+        rcases hc with rfl | rfl <;> decide
+    · have : skipSpace (w0 ++ '(' :: (w1 ++ (s ++ (w2 ++ [')']))) ++ rest) = '(' :: ((w1 ++ (s ++ (w2 ++ [')']))) ++ rest) := by
+        simp only [List.append_assoc, List.cons_append]
+        rw [space_absorbs w0 _ hw0]; simp +decide [skipSpace]
+      rw [this]
+      exact Or.inr (Or.inl ⟨_, _, rfl, by decide⟩)
+  | paren m k e w0 w1 s _ _ _ _ =>
+    intro rest _ _
+    left
+    exact ⟨'(', _, rfl, by decide⟩
+  | bin m kl kr op l r w1 w2 sl sr _ hw1 _ _ _ ihl _ =>
+    intro rest _ _
+    have := ihl (w1 ++ (op.text ++ (w2 ++ sr)) ++ rest) (by
+      intro y hy
+      have := (atomEndB_op w1 hw1 op ((w2 ++ sr) ++ rest)).1 y (by simpa using hy)
+      exact this) (by
+        have := noAssign_op w1 hw1 op ((w2 ++ sr) ++ rest)
+        simpa using this)
+    simpa using this
+
+/-- with such a text in front, `directive_ops` does not take the assignment alternative -/
+theorem directiveOps_noAssign (s : Str) (h : LeadOk s) : directiveOps s = directiveOps.tryN s [6, 5, 4, 3, 2] := by
+  unfold directiveOps
+  rcases h with ⟨y, ys, rfl, hy⟩ | ⟨name, t, rfl, hn, ht, hna⟩
+  · have hid : identText (y :: ys) = none := by simp [identText, hy]
+    simp only [hid]
+  · have hid : identText (name ++ t) = some (name, t) := identText_name name t hn ht
+    simp only [hid]
+    -- the assignment alternative fails: what follows the identifier is no `= expression`
+    have hfail : ∀ r1, skipSpace t = '=' :: r1 → expr (skipSpace r1) = .fail := by
+      intro r1 hr1
+      rcases hna with h0 | ⟨y, ys, hy, hne⟩ | ⟨r, hr⟩
+      · rw [h0] at hr1; simp at hr1
+      · rw [hy] at hr1; simp only [List.cons.injEq] at hr1; exact absurd hr1.1 hne
+      · rw [hr] at hr1
+        simp only [List.cons.injEq, true_and] at hr1
+        subst hr1
+        have hsk : skipSpace ('=' :: r) = '=' :: r := by simp +decide [skipSpace]
+        rw [hsk]
+        exact expr_fails' '=' r (Or.inr (Or.inr (Or.inr (Or.inr (Or.inr (Or.inl rfl))))))
+    split
+    · rename_i v r heq
+      split at heq
+      · rename_i r1 hr1
+        rw [hfail r1 hr1] at heq
+        simp at heq
+      · simp at heq
+    · rename_i heq
+      split at heq
+      · rename_i r1 hr1
+        rw [hfail r1 hr1] at heq
+        simp at heq
+      · simp at heq
+    · rfl
+
+/-- an operand of a directive as text, with the value the grammar gives it -/
+structure Dpd where
+  text : Str
+  val : Operand
+
+def Dpd.ok (o : Dpd) : Prop :=
+  (∀ rest, AfterOpd rest → directiveOp (o.text ++ rest) = .ok o.val rest) ∧
+  (∀ rest, skipSpace (o.text ++ rest) = o.text ++ rest)
+
+def dpdTail : List (Str × Str × Dpd) → Str
+  | [] => []
+  | (a, b, o) :: more => a ++ ',' :: (b ++ (o.text ++ dpdTail more))
+
+def dpdsOk (more : List (Str × Str × Dpd)) : Prop := ∀ x ∈ more, blanks x.1 ∧ blanks x.2.1 ∧ x.2.2.ok
+
+theorem dpd_after (more : List (Str × Str × Dpd)) (hm : dpdsOk more) (ws2 c : Str) (hws2 : blanks ws2) (hc : lineEnd c) :
+    AfterOpd (dpdTail more ++ (ws2 ++ c)) := by
+  cases more with
+  | nil =>
+    have := opd_after [] (by intro x hx; simp at hx) ws2 c hws2 hc
+    simpa [opdTail, dpdTail] using this
+  | cons x xs =>
+    obtain ⟨a, b, o⟩ := x
+    have ha : blanks a := (hm _ (List.mem_cons_self ..)).1
+    have hform : dpdTail ((a, b, o) :: xs) ++ (ws2 ++ c) = a ++ ',' :: (b ++ (o.text ++ dpdTail xs) ++ (ws2 ++ c)) := by
+      simp [dpdTail]
+    rw [hform]
+    have hhead : ∀ y, (a ++ ',' :: (b ++ (o.text ++ dpdTail xs) ++ (ws2 ++ c))).head? = some y → isIdentChar y = false := by
+      intro y hy
+      cases a with
+      | nil => simp at hy; subst hy; decide
+      | cons w ws =>
+        simp at hy; subst hy
+        have hw : isSpace w = true := ha w (by simp)
+        simp only [isSpace, Bool.or_eq_true, beq_iff_eq] at hw
+        rcases hw with rfl | rfl <;> decide
+    refine ⟨⟨?_, hhead, opEnd_comma a _ ha⟩, ?_⟩
+    · intro y hy
+      have := hhead y hy
+      cases hd : isDigit y with
+      | false => rfl
+      | true => simp [isIdentChar, hd] at this
+    · intro r2 hr
+      rw [space_absorbs a _ ha] at hr
+      simp +decide [skipSpace] at hr
+
+theorem dpd_len (more : List (Str × Str × Dpd)) : more.length ≤ (dpdTail more).length := by
+  induction more with
+  | nil => simp
+  | cons x xs ih =>
+    obtain ⟨a, b, o⟩ := x
+    simp only [dpdTail, List.length_cons, List.length_append]
+    omega
+
+theorem sepTail_dpds : ∀ (more : List (Str × Str × Dpd)), dpdsOk more → ∀ (ws2 c : Str), blanks ws2 → lineEnd c →
+    ∀ (f : Nat) (acc : List Operand), more.length < f →
+      sepTail directiveOp f acc (dpdTail more ++ (ws2 ++ c)) =
+        .ok (acc.reverse ++ more.map (fun x => x.2.2.val)) (ws2 ++ c) := by
+  intro more
+  induction more with
+  | nil =>
+    intro _ ws2 c hws2 hc f acc hf
+    obtain ⟨g, rfl⟩ : ∃ g, f = g + 1 := ⟨f - 1, by omega⟩
+    simp only [dpdTail, List.nil_append, sepTail, delimiter_end ws2 c hws2 hc, List.map_nil, List.append_nil]
+  | cons x xs ih =>
+    intro hm ws2 c hws2 hc f acc hf
+    obtain ⟨a, b, o⟩ := x
+    obtain ⟨g, rfl⟩ : ∃ g, f = g + 1 := ⟨f - 1, by omega⟩
+    have hx := hm _ (List.mem_cons_self ..)
+    have hxs : dpdsOk xs := fun y hy => hm y (List.mem_cons_of_mem _ hy)
+    have hdel : delimiter (dpdTail ((a, b, o) :: xs) ++ (ws2 ++ c)) = some (o.text ++ (dpdTail xs ++ (ws2 ++ c))) := by
+      unfold delimiter
+      simp only [dpdTail, List.append_assoc, List.cons_append]
+      rw [space_absorbs a _ hx.1]
+      simp only [skipSpace]
+      have : isSpace ',' = false := by decide
+      simp only [this, Bool.false_eq_true, if_false]
+      rw [space_absorbs b _ hx.2.1, hx.2.2.2]
+    have hop := hx.2.2.1 (dpdTail xs ++ (ws2 ++ c)) (dpd_after xs hxs ws2 c hws2 hc)
+    simp only [sepTail, hdel, hop]
+    rw [ih hxs ws2 c hws2 hc g (o.val :: acc) (by simp only [List.length_cons] at hf; omega)]
+    simp
+
+/-- behind an operand, after the blanks: nothing, or a comma, or the start of a comment -/
+theorem dpd_after_skip (more : List (Str × Str × Dpd)) (hm : dpdsOk more) (ws2 c : Str) (hws2 : blanks ws2) (hc : lineEnd c) :
+    skipSpace (dpdTail more ++ (ws2 ++ c)) = [] ∨
+      ∃ x xs, skipSpace (dpdTail more ++ (ws2 ++ c)) = x :: xs ∧ noStart x := by
+  cases more with
+  | nil =>
+    simp only [dpdTail, List.nil_append]
+    rw [skip_tail ws2 c hws2 hc]
+    rcases hc with rfl | ⟨hs, _⟩
+    · exact Or.inl rfl
+    · cases c with
+      | nil => exact Or.inl rfl
+      | cons y ys =>
+        right
+        refine ⟨y, ys, rfl, ?_⟩
+        rcases hs with h | h <;> (simp at h; subst h)
+        · exact Or.inl rfl
+        · exact Or.inr (Or.inl rfl)
+  | cons x xs =>
+    obtain ⟨a, b, o⟩ := x
+    have ha : blanks a := (hm _ (List.mem_cons_self ..)).1
+    right
+    refine ⟨',', b ++ (o.text ++ dpdTail xs) ++ (ws2 ++ c), ?_, Or.inr (Or.inr (Or.inr (Or.inl rfl)))⟩
+    have hform : dpdTail ((a, b, o) :: xs) ++ (ws2 ++ c) = a ++ ',' :: (b ++ (o.text ++ dpdTail xs) ++ (ws2 ++ c)) := by
+      simp [dpdTail]
+    rw [hform, space_absorbs a _ ha]
+    simp +decide [skipSpace]
+
+theorem spacedOps_fail_dpd (o : Dpd) (hg : o.ok) (more : List (Str × Str × Dpd)) (hm : dpdsOk more)
+    (ws2 c : Str) (hws2 : blanks ws2) (hc : lineEnd c) :
+    ∀ k, spacedOps (k + 2) (o.text ++ (dpdTail more ++ (ws2 ++ c))) = .fail := by
+  intro k
+  have hop := hg.1 _ (dpd_after more hm ws2 c hws2 hc)
+  have hZ := dpd_after_skip more hm ws2 c hws2 hc
+  simp only [spacedOps, hop]
+  cases hrest : dpdTail more ++ (ws2 ++ c) with
+  | nil => simp [neSpace]
+  | cons y ys =>
+    rw [hrest] at hZ
+    cases hsp : isSpace y with
+    | true =>
+      have hsk : skipSpace (y :: ys) = skipSpace ys := by simp [skipSpace, hsp]
+      rw [hsk] at hZ
+      simp only [neSpace, hsp, if_true]
+      rw [spacedOps_fail_at (skipSpace ys) hZ k]
+    | false => simp [neSpace, hsp]
+
+theorem directiveOps_dpds (o : Dpd) (hg : o.ok) (more : List (Str × Str × Dpd)) (hm : dpdsOk more)
+    (ws2 c : Str) (hws2 : blanks ws2) (hc : lineEnd c) (hlead : LeadOk (o.text ++ (dpdTail more ++ (ws2 ++ c)))) :
+    directiveOps (o.text ++ (dpdTail more ++ (ws2 ++ c))) =
+      .ok (.opList (o.val :: more.map (fun x => x.2.2.val))) (ws2 ++ c) := by
+  have hsp := spacedOps_fail_dpd o hg more hm ws2 c hws2 hc
+  have hop := hg.1 _ (dpd_after more hm ws2 c hws2 hc)
+  have hlist : sepList directiveOp (o.text ++ (dpdTail more ++ (ws2 ++ c))) =
+      .ok (o.val :: more.map (fun x => x.2.2.val)) (ws2 ++ c) := by
+    unfold sepList
+    simp only [hop]
+    rw [sepTail_dpds more hm ws2 c hws2 hc _ [o.val] (by
+        have := dpd_len more
+        simp only [List.length_append]
+        omega)]
+    simp
+  rw [directiveOps_noAssign _ hlead]
+  simp only [directiveOps.tryN, hsp 4, hsp 3, hsp 2, hsp 1, hsp 0, hlist]
+
+theorem dpd_after_head (more : List (Str × Str × Dpd)) (hm : dpdsOk more) (ws2 c : Str) (hws2 : blanks ws2) (hc : lineEnd c) :
+    NoAssign (skipSpace (dpdTail more ++ (ws2 ++ c))) := by
+  cases more with
+  | nil =>
+    simp only [dpdTail, List.nil_append]
+    rw [skip_tail ws2 c hws2 hc]
+    rcases hc with rfl | ⟨hs, _⟩
+    · exact Or.inl rfl
+    · cases c with
+      | nil => exact Or.inl rfl
+      | cons y ys =>
+        right; left
+        refine ⟨y, ys, rfl, ?_⟩
+        rcases hs with h | h <;> (simp at h; subst h; decide)
+  | cons x xs =>
+    obtain ⟨a, b, o⟩ := x
+    have ha : blanks a := (hm _ (List.mem_cons_self ..)).1
+    right; left
+    refine ⟨',', b ++ (o.text ++ dpdTail xs) ++ (ws2 ++ c), ?_, by decide⟩
+    have hform : dpdTail ((a, b, o) :: xs) ++ (ws2 ++ c) = a ++ ',' :: (b ++ (o.text ++ dpdTail xs) ++ (ws2 ++ c)) := by
+      simp [dpdTail]
+    rw [hform, space_absorbs a _ ha]
+    simp +decide [skipSpace]
+
+/-- an expression, written in any of the ways of `Spaced` -/
+def Dpd.ofExpr (e : Expr) (s : Str) : Dpd := ⟨s, .e e⟩
+
+theorem Dpd.ofExpr_ok (k : Nat) (e : Expr) (s : Str) (hsp : Spaced 0 k e s) : (Dpd.ofExpr e s).ok := by
+  refine ⟨?_, fun rest => skip_spaced 0 k e s hsp rest⟩
+  intro rest hr
+  obtain ⟨⟨_, hend, hop⟩, hpar⟩ := hr
+  have he : expr (s ++ rest) = .ok e rest :=
+    parse_print_spaced k e s hsp rest ⟨hend, hpar⟩ (by
+      intro x hx
+      rcases hop x hx with h | h
+      · exact Or.inr (Or.inl h)
+      · exact Or.inr (Or.inr h))
+  simp only [Dpd.ofExpr]
+  unfold directiveOp
+  simp only [he]
+
+/-- **A directive followed by a list of expressions** (`.db low(K)+1 , 1<<3 ; table`, `.dw lab, lab + 2`,
+    `.org base+0x10`, `.if A >= B`): indented or not, any directive name, each expression written in
+    any of the ways of `C05pp.Spaced` (any blanks between its tokens, any further parentheses), any
+    blanks around every comma, any blanks and any comment (or nothing) at the end — is that
+    directive with exactly those expressions as its operand list -/
+theorem expression_directive_line (ws1 name wsA : Str) (k : Nat) (e : Expr) (s : Str) (more : List (Str × Str × Dpd)) (ws2 c : Str)
+    (hws1 : blanks ws1) (hname : name ≠ []) (hlow : ∀ ch ∈ name, isLowerAlpha ch = true)
+    (hwsA : blanks wsA) (hA : wsA ≠ []) (hsp : Spaced 0 k e s) (hm : dpdsOk more)
+    (hws2 : blanks ws2) (hc : lineEnd c) :
+    line (ws1 ++ ('.' :: (name ++ (wsA ++ (s ++ (dpdTail more ++ (ws2 ++ c))))))) =
+      .ok (.directiveLine none (directiveOfName name) (.opList (.e e :: more.map (fun x => x.2.2.val)))) := by
+  obtain ⟨w, ws, rfl⟩ : ∃ w ws, wsA = w :: ws := by
+    cases wsA with
+    | nil => exact absurd rfl hA
+    | cons w ws => exact ⟨w, ws, rfl⟩
+  have hw : isSpace w = true := hwsA w (by simp)
+  have hwl : isLowerAlpha w = false := by
+    simp only [isSpace, Bool.or_eq_true, beq_iff_eq] at hw
+    rcases hw with rfl | rfl <;> decide
+  have hg := Dpd.ofExpr_ok k e s hsp
+  have hlead : LeadOk (s ++ (dpdTail more ++ (ws2 ++ c))) :=
+    spaced_lead 0 k e s hsp _ (dpd_after more hm ws2 c hws2 hc).1.2.1 (dpd_after_head more hm ws2 c hws2 hc)
+  have hdo := directiveOps_dpds (Dpd.ofExpr e s) hg more hm ws2 c hws2 hc hlead
+  have hsr := hg.2 (dpdTail more ++ (ws2 ++ c))
+  simp only [Dpd.ofExpr] at hdo hsr
+  generalize hR : s ++ (dpdTail more ++ (ws2 ++ c)) = R at hdo hsr ⊢
+  have hlab : label (ws1 ++ ('.' :: (name ++ ((w :: ws) ++ R)))) = none := by
+    cases ws1 with
+    | nil => simp +decide [label, identText]
+    | cons v vs =>
+      have hv : isSpace v = true := hws1 v (by simp)
+      have : isIdentStart v = false := by
+        simp only [isSpace, Bool.or_eq_true, beq_iff_eq] at hv
+        rcases hv with rfl | rfl <;> decide
+      simp [label, identText, this]
+  have hsk : skipSpace (ws1 ++ ('.' :: (name ++ ((w :: ws) ++ R)))) = '.' :: (name ++ ((w :: ws) ++ R)) := by
+    rw [space_absorbs ws1 _ hws1]; simp +decide [skipSpace]
+  have htw : takeWhileP isLowerAlpha (name ++ ((w :: ws) ++ R)) = (name, (w :: ws) ++ R) :=
+    takeWhile_all isLowerAlpha name _ hlow (by intro y hy; simp at hy; subst hy; exact hwl)
+  have hdir : directive ('.' :: (name ++ ((w :: ws) ++ R))) = some (directiveOfName name, (w :: ws) ++ R) := by
+    have hne : name.isEmpty = false := by cases name with | nil => exact absurd rfl hname | cons _ _ => rfl
+    simp only [directive, htw, hne]
+    simp +decide
+  have hsA : skipSpace ((w :: ws) ++ R) = R := by
+    rw [space_absorbs (w :: ws) _ hwsA]; exact hsr
+  have hst := skip_tail ws2 c hws2 hc
+  unfold line
+  simp only [optLabel, hlab]
+  simp only [hsk]
+  simp only [hdir]
+  simp only [hsA]
+  simp only [hdo]
+  simp only [hst]
+  rcases hc with rfl | ⟨_, hcom⟩
+  · simp [comment]
+  · simp only [hcom]; simp
+
+/-- what follows an expression at the end of a line ends an operand -/
+theorem afterOpd_end (ws2 c : Str) (hws2 : blanks ws2) (hc : lineEnd c) : AfterOpd (ws2 ++ c) := by
+  have := dpd_after [] (by intro x hx; simp at hx) ws2 c hws2 hc
+  simpa [dpdTail] using this
+
+/-- **An assignment directive** (`.equ NAME = expression`, `.set`, `.def` with a register written as
+    an expression is not meant here): indented or not, any blanks around the `=`, the expression
+    written in any of the ways of `C05pp.Spaced`, any blanks and any comment at the end -/
+theorem assignment_directive_line (ws1 dname wsA sym wsB wsC : Str) (k : Nat) (e : Expr) (s : Str) (ws2 c : Str)
+    (hws1 : blanks ws1) (hname : dname ≠ []) (hlow : ∀ ch ∈ dname, isLowerAlpha ch = true)
+    (hwsA : blanks wsA) (hA : wsA ≠ []) (hsym : isName sym) (hwsB : blanks wsB) (hwsC : blanks wsC)
+    (hsp : Spaced 0 k e s) (hws2 : blanks ws2) (hc : lineEnd c) :
+    line (ws1 ++ ('.' :: (dname ++ (wsA ++ (sym ++ (wsB ++ '=' :: (wsC ++ (s ++ (ws2 ++ c))))))))) =
+      .ok (.directiveLine none (directiveOfName dname) (.assign (.ident sym) e)) := by
+  obtain ⟨w, ws, rfl⟩ : ∃ w ws, wsA = w :: ws := by
+    cases wsA with
+    | nil => exact absurd rfl hA
+    | cons w ws => exact ⟨w, ws, rfl⟩
+  have hw : isSpace w = true := hwsA w (by simp)
+  have hwl : isLowerAlpha w = false := by
+    simp only [isSpace, Bool.or_eq_true, beq_iff_eq] at hw
+    rcases hw with rfl | rfl <;> decide
+  have hg := Dpd.ofExpr_ok k e s hsp
+  have hrest := afterOpd_end ws2 c hws2 hc
+  -- the expression behind the `=`
+  have he : expr (s ++ (ws2 ++ c)) = .ok e (ws2 ++ c) := by
+    have := hg.1 (ws2 ++ c) hrest
+    simp only [Dpd.ofExpr] at this
+    unfold directiveOp at this
+    cases hx : expr (s ++ (ws2 ++ c)) with
+    | ok e' r' => rw [hx] at this; simp only [PO.ok.injEq, Operand.e.injEq] at this; obtain ⟨rfl, rfl⟩ := this; rfl
+    | fail =>
+      rw [hx] at this; simp only at this
+      split at this <;> simp at this
+    | oof => rw [hx] at this; simp at this
+  have hsks : skipSpace (s ++ (ws2 ++ c)) = s ++ (ws2 ++ c) := skip_spaced 0 k e s hsp _
+  -- directive_ops takes the assignment alternative
+  have hdo : directiveOps (sym ++ (wsB ++ '=' :: (wsC ++ (s ++ (ws2 ++ c))))) = .ok (.assign (.ident sym) e) (ws2 ++ c) := by
+    unfold directiveOps
+    have hid : identText (sym ++ (wsB ++ '=' :: (wsC ++ (s ++ (ws2 ++ c))))) = some (sym, wsB ++ '=' :: (wsC ++ (s ++ (ws2 ++ c)))) :=
+      identText_name sym _ hsym (by
+        intro y hy
+        cases wsB with
+        | nil => simp at hy; subst hy; decide
+        | cons b bs =>
+          simp at hy; subst hy
+          have hb : isSpace b = true := hwsB b (by simp)
+          simp only [isSpace, Bool.or_eq_true, beq_iff_eq] at hb
+          rcases hb with rfl | rfl <;> decide)
+    have hsk1 : skipSpace (wsB ++ '=' :: (wsC ++ (s ++ (ws2 ++ c)))) = '=' :: (wsC ++ (s ++ (ws2 ++ c))) := by
+      rw [space_absorbs wsB _ hwsB]; simp +decide [skipSpace]
+    have hsk2 : skipSpace (wsC ++ (s ++ (ws2 ++ c))) = s ++ (ws2 ++ c) := by
+      rw [space_absorbs wsC _ hwsC, hsks]
+    simp only [hid, hsk1, hsk2, he]
+  have hsym0 : skipSpace (sym ++ (wsB ++ '=' :: (wsC ++ (s ++ (ws2 ++ c))))) = sym ++ (wsB ++ '=' :: (wsC ++ (s ++ (ws2 ++ c)))) :=
+    skip_name sym _ hsym
+  generalize hR : sym ++ (wsB ++ '=' :: (wsC ++ (s ++ (ws2 ++ c)))) = R at hdo hsym0 ⊢
+  have hlab : label (ws1 ++ ('.' :: (dname ++ ((w :: ws) ++ R)))) = none := by
+    cases ws1 with
+    | nil => simp +decide [label, identText]
+    | cons v vs =>
+      have hv : isSpace v = true := hws1 v (by simp)
+      have : isIdentStart v = false := by
+        simp only [isSpace, Bool.or_eq_true, beq_iff_eq] at hv
+        rcases hv with rfl | rfl <;> decide
+      simp [label, identText, this]
+  have hsk : skipSpace (ws1 ++ ('.' :: (dname ++ ((w :: ws) ++ R)))) = '.' :: (dname ++ ((w :: ws) ++ R)) := by
+    rw [space_absorbs ws1 _ hws1]; simp +decide [skipSpace]
+  have htw : takeWhileP isLowerAlpha (dname ++ ((w :: ws) ++ R)) = (dname, (w :: ws) ++ R) :=
+    takeWhile_all isLowerAlpha dname _ hlow (by intro y hy; simp at hy; subst hy; exact hwl)
+  have hdir : directive ('.' :: (dname ++ ((w :: ws) ++ R))) = some (directiveOfName dname, (w :: ws) ++ R) := by
+    have hne : dname.isEmpty = false := by cases dname with | nil => exact absurd rfl hname | cons _ _ => rfl
+    simp only [directive, htw, hne]
+    simp +decide
+  have hsA : skipSpace ((w :: ws) ++ R) = R := by
+    rw [space_absorbs (w :: ws) _ hwsA]; exact hsym0
+  have hst := skip_tail ws2 c hws2 hc
+  unfold line
+  simp only [optLabel, hlab]
+  simp only [hsk]
+  simp only [hdir]
+  simp only [hsA]
+  simp only [hdo]
+  simp only [hst]
+  rcases hc with rfl | ⟨_, hcom⟩
+  · simp [comment]
+  · simp only [hcom]; simp
+
+/-! non-vacuity: `.db low ( K ) + 1 ,2 ; t` -/
+example : ∃ ops, line ".db low ( K ) + 1 ,2 ; t".toList = .ok (.directiveLine none (directiveOfName ['d', 'b']) ops) := by
+  have hb : ∀ w : Str, w = [] ∨ w = [' '] → blanks w := by
+    intro w hw c hc; rcases hw with rfl | rfl <;> simp at hc; subst hc; decide
+  have hsp : Spaced 0 (opLevel .add + 1) (.bin .add (.func (.ident ['l', 'o', 'w']) (.ident ['K'])) (.const 1)) "low ( K ) + 1".toList :=
+    Spaced.bin 0 top top .add _ _ [' '] [' '] "low ( K )".toList ['1'] (by decide) (hb _ (Or.inr rfl)) (hb _ (Or.inr rfl))
+      (Spaced.func _ top ['l', 'o', 'w'] (.ident ['K']) [' '] [' '] [' '] ['K'] ⟨'l', ['o', 'w'], rfl, by decide, by decide⟩
+        (hb _ (Or.inr rfl)) (hb _ (Or.inr rfl)) (hb _ (Or.inr rfl)) (Spaced.ident 0 ['K'] ⟨'K', [], rfl, by decide, by decide⟩))
+      (Spaced.const _ 1 1 rfl (by decide))
+  have h2 : Spaced 0 top (.const 2) ['2'] := Spaced.const 0 2 2 rfl (by decide)
+  have := expression_directive_line [] ['d', 'b'] [' '] _ _ "low ( K ) + 1".toList
+    [([' '], [], Dpd.ofExpr (.const 2) ['2'])] [' '] "; t".toList
+    (hb _ (Or.inl rfl)) (by decide) (by decide) (hb _ (Or.inr rfl)) (by decide) hsp
+    (by
+      intro x hx
+      simp only [List.mem_singleton] at hx
+      subst hx
+      exact ⟨hb _ (Or.inr rfl), hb _ (Or.inl rfl), Dpd.ofExpr_ok _ _ _ h2⟩)
+    (hb _ (Or.inr rfl)) (Or.inr ⟨Or.inl rfl, rfl⟩)
+  exact ⟨_, this⟩
+
 end Avra.Props.C14
